@@ -189,7 +189,22 @@ def dependent_cols(rng, name="dc"):
         lp["cols"].append(("d%d" % k, o * f, NINF, INF))
         lp["rows"] = [(rn, sn, rh, rg, ent + [(k, v * f) for (c, v) in ent if c == j]) for (rn, sn, rh, rg, ent) in lp["rows"]]
         deps.append((j, k))
-    lp["dep_cols"] = deps
+    # a free column that occurs in one new row only (which bounds it on the side the objective pushes to): a basis holding
+    # the column and that row's logical is singular as well, and the column thrown out by the repair is a free one
+    singles = []
+    for _ in range(rng.randint(1, 2)):
+        k = len(lp["cols"])
+        c = F(rng.randint(1, 4))
+        t = F(rng.randint(-3, 5))
+        a = F(rng.choice([-3, -1, 2, 4]))
+        push_up = (c > 0) == lp["max"]                  # the objective wants x_k large
+        lp["cols"].append(("s%d" % k, c, NINF, INF))
+        # a * x_k (<= or >=) a * t  written so that it bounds x_k from the side it is pushed to
+        sense = ("L" if a > 0 else "G") if push_up else ("G" if a > 0 else "L")
+        lp["rows"].append(("sr%d" % k, sense, a * t, F(0), [(k, a)]))
+        singles.append((k, len(lp["rows"]) - 1))
+    ntot = len(lp["cols"])
+    lp["dep_cols"] = deps + [(k, ntot + i) for (k, i) in singles]
     return lp
 
 
